@@ -88,8 +88,10 @@ def lean_ty(t) -> str:
             return f"List {paren(lean_ty(t[1]))}"
         if k == "dict":
             return f"List (Nat × {lean_ty(t[2])})"
-        if k in ("obj", "cls", "enum", "lean"):
+        if k in ("obj", "cls", "enum", "lean", "struct"):
             return t[1]
+        if k == "set":
+            return f"List {paren(lean_ty(t[1]))}"
         if k == "ref":
             return "Nat"
     raise Unsupported(f"type {t!r}")
@@ -133,6 +135,7 @@ class FnSpec:
     bind_cls: str | None = None  # classmethod specialised to this class
     lean_name: str | None = None
     fuel: str | None = None  # Lean term for the fuel of its while loop(s), may mention parameters
+    allow_async: bool = False  # a coroutine whose awaits are all calls on the modelled environment (or on translated coroutines)
 
 
 @dataclasses.dataclass
@@ -163,6 +166,13 @@ class ModSpec:
     postamble: str = ""
     state_decl: str = ""  # Lean text: the state structure and its environment operations (after enums and unions)
     preamble: str = ""
+    # hook tried first on Call / Attribute nodes: (fn, node, env, lines) -> (term, type) | None
+    ext_expr: object = None
+    # record-like classes of the repository handled as Lean structures: name -> {field: type}; declared in state_decl
+    structs: dict = dataclasses.field(default_factory=dict)
+    # qualified function name -> locals whose in-place attribute assignment may be translated as a copy although the object is
+    # shared; the reason must be given next to the entry in the module spec
+    alias_ok: dict = dataclasses.field(default_factory=dict)
 
 
 # --------------------------------------------------------------------------- translator
@@ -434,7 +444,7 @@ class Tr:
             node = self.find_def(real) if real else None
             if node is None:
                 raise Unsupported(f"{qual}: definition not found")
-        if isinstance(node, ast.AsyncFunctionDef):
+        if isinstance(node, ast.AsyncFunctionDef) and not fs.allow_async:
             raise Unsupported(f"{qual}: coroutine")
         decos = [ast.unparse(d) for d in node.decorator_list]
         parts = qual.split(".")
@@ -637,6 +647,10 @@ class Fn:
             elif isinstance(t, (ast.Tuple, ast.List)):
                 for e in t.elts:
                     tgt(e)
+            elif isinstance(t, ast.Attribute) and isinstance(t.value, ast.Name) and t.value.id not in ("self", "cls"):
+                # `local.field = v` on a record-like local is a rebinding of the local in the translation
+                if t.value.id not in out:
+                    out.append(t.value.id)
 
         for s in stmts:
             for n in ast.walk(s):
@@ -667,10 +681,15 @@ class Fn:
         return (isinstance(s, ast.Expr) and isinstance(s.value, ast.Call) and isinstance(s.value.func, ast.Attribute)
                 and isinstance(s.value.func.value, ast.Name) and s.value.func.value.id in ("_LOGGER", "LOGGER"))
 
-    def check_log_args(self, call):
+    def check_log_args(self, call, env=None, L=None):
         """a dropped logging call must not be able to raise or have effects: names, attributes, constants,
-        f-strings of those, `.hex()` and `.name` only"""
+        f-strings of those, `.hex()` and `.name` only; an argument that is a conversion the module spec knows
+        (it can raise) is evaluated for that effect, in place, before the call is dropped"""
         for a in list(call.args) + [k.value for k in call.keywords]:
+            if isinstance(a, ast.Call) and self.tr.spec.ext_expr is not None and env is not None:
+                r = self.tr.spec.ext_expr(self, a, env, L)
+                if r is not None:
+                    continue
             for n in ast.walk(a):
                 if isinstance(n, ast.Call):
                     if isinstance(n.func, ast.Attribute) and n.func.attr in ("hex",) and not n.args:
@@ -693,7 +712,7 @@ class Fn:
                 i += 1
                 continue
             if self.is_logging(s):
-                self.check_log_args(s.value)
+                self.check_log_args(s.value, env, L)
                 i += 1
                 continue
             if isinstance(s, ast.If) and self.is_log_guard(s):
@@ -879,6 +898,8 @@ class Fn:
     # ---------- raise
     def raise_stmt(self, s: ast.Raise, env, L):
         if s.exc is None:
+            if getattr(self, "handler_exc", None):
+                return f"PyM.throw {self.handler_exc[-1]}"
             raise Unsupported(f"{self.fs.qual}: bare raise")
         e = s.exc
         name = None
@@ -918,6 +939,8 @@ class Fn:
     def coerce(self, term, ty, want):
         if ty == want or want is None:
             return term
+        if ty == ("emptycoll",) and isinstance(want, tuple) and want[0] in ("dict", "set", "list"):
+            return "[]"
         if ty == BOOL and want == NAT:
             return f"(b2n {paren(term)})"
         if ty == NAT and want == INT:
@@ -949,6 +972,12 @@ class Fn:
             raise Unsupported(f"{self.fs.qual}: chained assignment")
         t = targets[0]
         term, ty = self.ex(value, env, L)
+        if isinstance(t, ast.Name) and isinstance(ty, tuple) and ty[0] == "struct":
+            self.fresh_structs = getattr(self, "fresh_structs", set())
+            if term.startswith("({} :"):
+                self.fresh_structs.add(t.id)     # built here: nobody else holds it
+            else:
+                self.fresh_structs.discard(t.id)
         self.bind_target(t, term, ty, env, L)
 
     @staticmethod
@@ -987,6 +1016,21 @@ class Fn:
             L.append(f"let ({', '.join(names)}) := {term}")
             for e, tmp, et in post:
                 self.bind_target(e, tmp, et, env, L)
+            return
+        if isinstance(t, ast.Attribute) and isinstance(t.value, ast.Name) and t.value.id in env \
+                and isinstance(env[t.value.id], tuple) and env[t.value.id][0] == "struct":
+            sname = env[t.value.id][1]
+            fields = self.tr.spec.structs[sname]
+            # Python mutates the object in place; the translation rebinds a copy.  That is the same thing only for an object
+            # nobody else holds (built in this function) - or where the module spec states why sharing cannot be observed
+            if t.value.id not in getattr(self, "fresh_structs", set()) and \
+                    t.value.id not in self.tr.spec.alias_ok.get(self.fs.qual, []):
+                raise Unsupported(f"{self.fs.qual}: attribute assignment on {t.value.id}, an object that may be shared")
+            if t.attr not in fields:
+                raise Unsupported(f"{self.fs.qual}: {sname} has no field {t.attr}")
+            v = self.coerce(term, ty, fields[t.attr])
+            loc = ident(t.value.id)
+            L.append(f"let {loc} := {{ {loc} with {ident(t.attr)} := {v} }}")
             return
         if isinstance(t, ast.Attribute) and isinstance(t.value, ast.Name) and t.value.id == "self" and self.is_state_method:
             st = self.tr.spec.state
@@ -1264,7 +1308,12 @@ class Fn:
         L.extend("  " + x for x in lo)
         L.append("| .error e_ =>")
         eh = dict(env)
-        lh, _ = self.block(list(s.handlers[0].body) + ([] if self.terminates(s.handlers[0].body) else list(rest)), eh, tail, rest_after)
+        self.handler_exc = getattr(self, "handler_exc", None) or []
+        self.handler_exc.append("e_")
+        try:
+            lh, _ = self.block(list(s.handlers[0].body) + ([] if self.terminates(s.handlers[0].body) else list(rest)), eh, tail, rest_after)
+        finally:
+            self.handler_exc.pop()
         cls_term = "[]" if classes is None else "[" + ", ".join(f'"{c}"' for c in classes) + "]"
         L.append(f"  if PyErr.caughtBy e_ {cls_term} then do")
         L.extend("    " + x for x in lh)
@@ -1278,6 +1327,8 @@ class Fn:
             if len(args) == 1:
                 return f"rangeN {paren(self.coerce(args[0][0], args[0][1], NAT))}", NAT
             if len(args) == 2:
+                if isinstance(node.args[0], ast.Constant) and node.args[0].value == 0 and args[1][1] == NAT:
+                    return f"rangeN {paren(args[1][0])}", NAT
                 if args[0][1] == NAT and args[1][1] == NAT:
                     a, b = args[0][0], args[1][0]
                     return f"(rangeI (Int.ofNat {paren(a)}) (Int.ofNat {paren(b)}))", INT
@@ -1395,11 +1446,29 @@ class Fn:
             if at != bt:
                 raise Unsupported(f"{self.fs.qual}: conditional expression of two types")
             return f"(if {c} then {a} else {b})", at
+        if isinstance(node, ast.Await):
+            if not self.fs.allow_async:
+                raise Unsupported(f"{self.fs.qual}: await")
+            if not isinstance(node.value, ast.Call):
+                raise Unsupported(f"{self.fs.qual}: await of something that is not a call: {ast.unparse(node)[:60]}")
+            self.awaiting = True
+            try:
+                return self.ex(node.value, env, L, stmt)
+            finally:
+                self.awaiting = False
+        if isinstance(node, (ast.Call, ast.Attribute)) and tr.spec.ext_expr is not None:
+            r = tr.spec.ext_expr(self, node, env, L)
+            if r is not None:
+                return r
+        if isinstance(node, ast.Dict) and not node.keys:
+            return "[]", ("emptycoll",)
         if isinstance(node, ast.Attribute):
             return self.attribute(node, env, L)
         if isinstance(node, ast.Subscript):
             return self.subscript(node, env, L)
         if isinstance(node, ast.Call):
+            if isinstance(node.func, ast.Name) and node.func.id == "set" and not node.args:
+                return "[]", ("emptycoll",)
             if isinstance(node.func, ast.Name) and node.func.id in tr.spec.exc_ctor:
                 return tr.spec.exc_ctor[node.func.id](self, node, env, L), EXC
             return self.call(node, env, L, stmt)
@@ -1483,6 +1552,8 @@ class Fn:
             neg = "!" if op is ast.NotIn else ""
             if bt == ("list", NAT) and at in (NAT, BOOL):
                 return f"({neg}({b} : List Nat).contains {paren(self.coerce(a, at, NAT))})", BOOL
+            if isinstance(bt, tuple) and bt[0] == "dict" and at == NAT:
+                return f"({neg}(dictGet {paren(b)} {paren(a)}).isSome)", BOOL
             if bt == BYTES and at == BYTES:
                 # only the one-byte needle is supported: bytes([X]) in buf
                 return f"({neg}bytesContains1 {paren(a)} {paren(b)})", BOOL
@@ -1496,7 +1567,7 @@ class Fn:
             b, bt = self.coerce(b, bt, NAT), NAT
         if {at, bt} == {NAT, INT}:
             a, b, at, bt = self.coerce(a, at, INT), self.coerce(b, bt, INT), INT, INT
-        if at == bt and at in (NAT, INT, BOOL, BYTES) or (at == bt and isinstance(at, tuple) and at[0] in ("enum", "cls")):
+        if at == bt and at in (NAT, INT, BOOL, BYTES) or (at == bt and isinstance(at, tuple) and at[0] in ("enum", "cls", "lean", "struct")):
             if op in (ast.Eq, ast.NotEq) or at in (NAT, INT):
                 return f"(decide ({a} {'=' if op is ast.Eq else '≠' if op is ast.NotEq else sym} {b}))" if op in (ast.Eq, ast.NotEq) else f"(decide ({a} {sym} {b}))", BOOL
         raise Unsupported(f"{self.fs.qual}: comparison {ast.unparse(node)[:60]} on {at}, {bt}")
@@ -1537,6 +1608,11 @@ class Fn:
                     return f"{tmp}.{fld}", fty
             raise Unsupported(f"{self.fs.qual}: attribute {src}")
         base, bt = self.ex(node.value, env, L)
+        if isinstance(bt, tuple) and bt[0] == "struct":
+            fields = tr.spec.structs[bt[1]]
+            if node.attr in fields:
+                return f"{paren(base)}.{ident(node.attr)}", fields[node.attr]
+            raise Unsupported(f"{self.fs.qual}: {bt[1]} has no field {node.attr}")
         if isinstance(bt, tuple) and bt[0] == "cls":
             u = bt[1][:-3]
             if node.attr in tr.cls_attrs.get(u, {}):
@@ -1557,6 +1633,10 @@ class Fn:
     def subscript(self, node, env, L):
         base, bt = self.ex(node.value, env, L)
         if bt != BYTES:
+            if isinstance(bt, tuple) and bt[0] == "list" and isinstance(node.slice, ast.Constant) and isinstance(node.slice.value, int) and node.slice.value >= 0:
+                tmp = self.tr.fresh("v")
+                L.append(f"let {tmp} ← {self.lift(f'listAt {paren(base)} {node.slice.value}')}")
+                return tmp, bt[1]
             if isinstance(bt, tuple) and bt[0] == "dict":
                 k, kt = self.ex(node.slice, env, L)
                 tmp = self.tr.fresh("v")
@@ -2268,7 +2348,216 @@ def uart_spec() -> ModSpec:
     )
 
 
-MODULES = {"Ash": ash_spec, "Uart": uart_spec}
+# --------------------------------------------------------------------------- bellows/multicast.py (coroutines over the command layer)
+
+MCAST_STATE_DECL = """/-- `t.EmberMulticastTableEntry` (three integer fields) -/
+structure McEntry where
+  multicastId : Nat := 0
+  endpoint : Nat := 0
+  networkIndex : Nat := 0
+deriving Repr, DecidableEq
+
+abbrev StatusV := BV.Status.St
+
+/-- what an awaited EZSP command does: it returns the values of its response, or it raises -/
+inductive Resp
+  | cfg (status : StatusV) (value : Nat)          -- getConfigurationValue -> (status, value)
+  | entry (status : StatusV) (e : McEntry)        -- getMulticastTableEntry -> (status, entry)
+  | one (status : StatusV)                        -- setMulticastTableEntry -> (status,)
+  | raises (cls : String)                         -- the command raises (asyncio.TimeoutError, EzspError, ...)
+deriving Repr, DecidableEq
+
+/-- commands issued, in program order, with their arguments -/
+inductive MEv
+  | getConfig (id : Nat)
+  | getEntry (index : Nat)
+  | setEntry (index : Nat) (e : McEntry)
+deriving Repr, DecidableEq
+
+/-- the fields of `Multicast`, the scripted command layer (`script`: the outcome of each awaited command, in order) and the
+element each `set.pop()` returns (`choices`; Python's choice is arbitrary) -/
+structure Multicast where
+  multicast : List (Nat × (McEntry × Nat)) := []     -- `_multicast`: group id -> (entry, table index), insertion ordered
+  available : List Nat := []                          -- `_available` (a set)
+  script : List Resp := []
+  choices : List Nat := []
+  trace : List MEv := []
+deriving Repr, DecidableEq
+
+/-- `await self._ezsp.<command>(...)`: record the call, take the next scripted outcome -/
+def mcall (e : MEv) : PyM Multicast Resp := fun s =>
+  match s.script with
+  | [] => (.error (.unsupported "script exhausted"), { s with trace := s.trace ++ [e] })
+  | .raises c :: rest => (.error (.raised c), { s with trace := s.trace ++ [e], script := rest })
+  | r :: rest => (.ok r, { s with trace := s.trace ++ [e], script := rest })
+
+def Resp.asCfg : Resp → Except PyErr (StatusV × Nat)
+  | .cfg st v => .ok (st, v)
+  | _ => .error (.unsupported "response of another command")
+def Resp.asEntry : Resp → Except PyErr (StatusV × McEntry)
+  | .entry st e => .ok (st, e)
+  | _ => .error (.unsupported "response of another command")
+def Resp.asSt : Resp → Except PyErr (List StatusV)
+  | .one x => .ok [x]
+  | _ => .error (.unsupported "response of another command")
+
+/-- `self._available.pop()`: KeyError on an empty set, otherwise some element (the next scripted choice, which must be one) -/
+def availPop : PyM Multicast Nat := fun s =>
+  if s.available.isEmpty then (.error (.raised "KeyError"), s)
+  else match s.choices with
+    | c :: rest => if s.available.contains c then (.ok c, { s with available := s.available.erase c, choices := rest })
+                   else (.error (.unsupported "not an element of the set"), s)
+    | [] => (.error (.unsupported "choices exhausted"), s)
+
+/-- `self._available.add(i)` -/
+def availAdd (i : Nat) : PyM Multicast Unit := PyM.modify fun s =>
+  { s with available := if s.available.contains i then s.available else s.available ++ [i] }
+
+/-- `t.uint8_t(x)` / `t.EmberMulticastId(x)`: ValueError outside the type's range -/
+def checkU (bytes x : Nat) : Except PyErr Nat := if x < 256 ^ bytes then .ok x else .error (.raised "ValueError")
+
+/-- `t.sl_Status.from_ember_status(status) == t.sl_Status.OK` (C18's model of the conversion) -/
+def statusIsOk (st : StatusV) : Bool := BV.Status.conv st == BV.Gen.Status.slOK
+"""
+
+
+def multicast_spec() -> ModSpec:
+    ENTRY = ("struct", "McEntry")
+    STATUS = ("lean", "StatusV")
+    ENTRY_FIELDS = {"endpoint": NAT, "multicastId": NAT, "networkIndex": NAT}
+
+    def ezsp_call(name, ev_fmt, unpack, rty):
+        def h(fn, node, env, L):
+            if not getattr(fn, "awaiting", False):
+                raise Unsupported(f"{name} called without await")
+            if node.keywords:
+                raise Unsupported(f"{name} with keyword arguments")
+            args = [fn.ex(a, env, L) for a in node.args]
+            ev = ev_fmt(fn, args)
+            r = fn.tr.fresh("resp")
+            L.append(f"let {r} ← mcall ({ev})")
+            v = fn.tr.fresh("v")
+            L.append(f"let {v} ← PyM.lift (Resp.{unpack} {r})")
+            return v, rty
+        return h
+
+    def ev_get_config(fn, args):
+        if len(args) != 1 or args[0][1] != NAT:
+            raise Unsupported("getConfigurationValue arguments")
+        return f".getConfig {paren(args[0][0])}"
+
+    def ev_get_entry(fn, args):
+        if len(args) != 1 or args[0][1] not in (NAT, INT):
+            raise Unsupported("getMulticastTableEntry arguments")
+        a = args[0][0] if args[0][1] == NAT else f"({args[0][0]}).toNat"
+        return f".getEntry {paren(a)}"
+
+    def ev_set_entry(fn, args):
+        if len(args) != 2 or args[0][1] != NAT or args[1][1] != ENTRY:
+            raise Unsupported("setMulticastTableEntry arguments")
+        return f".setEntry {paren(args[0][0])} {paren(args[1][0])}"
+
+    def avail_pop(fn, node, env, L):
+        if node.args or node.keywords:
+            raise Unsupported("set.pop with arguments")
+        tmp = fn.tr.fresh("x")
+        L.append(f"let {tmp} ← availPop")
+        return tmp, NAT
+
+    def avail_add(fn, node, env, L):
+        a, at = fn.ex(node.args[0], env, L)
+        if at == INT:
+            a, at = f"({a}).toNat", NAT
+        if at != NAT:
+            raise Unsupported("set.add of " + str(at))
+        L.append(f"availAdd {paren(a)}")
+        return "()", UNIT
+
+    def mc_pop(fn, node, env, L):
+        if len(node.args) != 1:
+            raise Unsupported("dict.pop arity")
+        k, kt = fn.ex(node.args[0], env, L)
+        s_ = fn.tr.fresh("s")
+        r_ = fn.tr.fresh("p")
+        L.append(f"let {s_} ← PyM.get")
+        L.append(f"let {r_} ← PyM.lift (dictPop {s_}.multicast {paren(fn.coerce(k, kt, NAT))})")
+        L.append(f"PyM.modify fun s => {{ s with multicast := {r_}.2 }}")
+        return f"{r_}.1", tup(ENTRY, NAT)
+
+    st = StateSpec(
+        pyclass="Multicast", lean="Multicast",
+        fields={
+            "_multicast": ("multicast", ("dict", NAT, tup(ENTRY, NAT))),
+            "_available": ("available", ("set", NAT)),
+        },
+        calls={
+            "self._ezsp.getConfigurationValue": ezsp_call("getConfigurationValue", ev_get_config, "asCfg", tup(STATUS, NAT)),
+            "self._ezsp.getMulticastTableEntry": ezsp_call("getMulticastTableEntry", ev_get_entry, "asEntry", tup(STATUS, ENTRY)),
+            "self._ezsp.setMulticastTableEntry": ezsp_call("setMulticastTableEntry", ev_set_entry, "asSt", ("list", STATUS)),
+            "self._available.pop": avail_pop,
+            "self._available.add": avail_add,
+            "self._multicast.pop": mc_pop,
+        },
+    )
+
+    def ext(fn, node, env, L):
+        src = ast.unparse(node)
+        if isinstance(node, ast.Attribute):
+            if src == "t.sl_Status.OK":
+                return "(BV.Status.St.sl BV.Gen.Status.slOK)", STATUS
+            if src == "t.sl_Status.INVALID_INDEX":
+                import bellows.types as t
+
+                return f"(BV.Status.St.sl {int(t.sl_Status.INVALID_INDEX)})", STATUS
+            if src == "t.EzspConfigId.CONFIG_MULTICAST_TABLE_SIZE":
+                import bellows.types as t
+
+                return str(int(t.EzspConfigId.CONFIG_MULTICAST_TABLE_SIZE)), NAT
+            return None
+        f = ast.unparse(node.func)
+        if f == "t.sl_Status.from_ember_status" and len(node.args) == 1:
+            a, at = fn.ex(node.args[0], env, L)
+            if at != STATUS:
+                raise Unsupported(f"from_ember_status of {at}")
+            # the conversion itself is C18's model; only its comparison with OK is used here
+            return f"(BV.Status.St.sl (BV.Status.conv {paren(a)}))", STATUS
+        if f in ("t.uint8_t", "t.EmberMulticastId") and len(node.args) == 1:
+            import bellows.types as t
+
+            width = {"t.uint8_t": 1, "t.EmberMulticastId": t.EmberMulticastId._bits // 8}[f]
+            a, at = fn.ex(node.args[0], env, L)
+            if at != NAT:
+                raise Unsupported(f"{f} of {at}")
+            tmp = fn.tr.fresh("n")
+            L.append(f"let {tmp} ← {fn.lift(f'checkU {width} {paren(a)}')}")
+            return tmp, NAT
+        if f == "t.EmberMulticastTableEntry" and not node.args and not node.keywords:
+            return "({} : McEntry)", ENTRY
+        return None
+
+    fns = [
+        FnSpec("Multicast._initialize", ret=UNIT, allow_async=True),
+        FnSpec("Multicast.subscribe", params={"group_id": NAT}, ret=STATUS, allow_async=True),
+        FnSpec("Multicast.unsubscribe", params={"group_id": NAT}, ret=STATUS, allow_async=True),
+    ]
+    return ModSpec(
+        module="bellows.multicast",
+        ns="BV.Src.Mcast",
+        imports=["BV.Py.Prelude", "BV.Model.Status"],
+        opens=["BV.Py"],
+        unions={},
+        fns=fns,
+        state=st,
+        ext_expr=ext,
+        structs={"McEntry": ENTRY_FIELDS},
+        # unsubscribe sets `entry.endpoint = 0` on the object stored in `_multicast[group_id]`; the stored object's fields are never
+        # read again (only its index is, and a later unsubscribe overwrites the endpoint with 0 anyway), so the sharing is not observable
+        alias_ok={"Multicast.unsubscribe": ["entry"]},
+        state_decl=MCAST_STATE_DECL,
+    )
+
+
+MODULES = {"Ash": ash_spec, "Uart": uart_spec, "Mcast": multicast_spec}
 
 
 def translate_module(spec: ModSpec):
